@@ -18,7 +18,7 @@ type Head struct {
 }
 
 var (
-	headRegexp     = regexp.MustCompile("ref: refs/heads/.+")
+	headRegexp     = regexp.MustCompile(`^ref: refs/heads/[^/\s]+$`)
 	ErrInvalidHead = errors.New("error: invalid HEAD format")
 	ErrIOHandling  = errors.New("IO handling error")
 )
